@@ -2,17 +2,26 @@ import vf
 
 SPEC = dict(
     level="proof",
-    harness=dict(pkg_dir="index", run="TestVerifC37$", files=["index/zz_verif_c37_test.go"],
+    # the run pattern matches TestVerifC37 (Convert/Add streams) and TestVerifC37Utf8 (tie of Lib/Utf8.v to unicode/utf8)
+    harness=dict(pkg_dir="index", run="TestVerifC37", files=["index/zz_verif_c37_test.go"],
                  n_quick=400, n_thorough=6000),
-    runner=dict(imports=["From ZV Require Import Lib.Base Model.Ctags."], case_type="c37case",
-                mismatch_fn="c37_mismatches"),
-    rule="random contents (0-6 lines over a small word alphabet incl. a multi-byte rune, optional final newline) x 0-8 ctags "
-         "entries (line in -1..lines+1, names present/absent/empty/overlapping); distinct by (content,tags); non-trivial = "
-         ">= 2 sections derived. The same tagsToSections value is reused across cases (nlsBuf reuse).",
+    runner=dict(imports=["From ZV Require Import Lib.Base Lib.Utf8 Model.Ctags."], case_type="c37case",
+                mismatch_fn="c37_mismatches", shard=2500),
+    rule="CConv: random contents (0-6 lines over a word alphabet with 2/3/4-byte runes; streams: valid content / content "
+         "with stray invalid bytes / invalid-UTF-8 names) x 0-8 (6%: 12-41) ctags entries (line in -1..lines+1, names "
+         "present/absent/empty/overlapping); the same tagsToSections value is reused across cases; non-trivial = >= 2 "
+         "sections derived. CAdd: ShardBuilder.Add on arbitrary section lists (on/off rune boundaries, swapped, Start>End, "
+         "past end, at end, duplicates). CUtf8Row/CUtf8/CEnc: unicode/utf8 vs Lib/Utf8.v — all 1- and 2-byte strings "
+         "exhaustively, 3/4-byte rows exhaustive in the last byte, random and mutated strings (DecodeRune loop, Valid, "
+         "RuneCount, []rune round trip), AppendRune on valid/surrogate/out-of-range runes. Distinct by full input.",
     trusted_base=["correspondence harness harness/overlay/index/zz_verif_c37_test.go (generator, canonicalisation, Go oracle)",
-                  "model of sort.Sort(symbolSlice) as a stable insertion sort on Start (validated by the correspondence on Add's verdict)",
-                  "uint32 offsets modelled as nat: statements assume |content| < 2^32"],
-    assumptions=["|content| < 2^32 (offsets are uint32 in Go)"],
+                  "model of sort.Sort(symbolSlice) as a stable insertion sort on Start (validated by the correspondence on Add's "
+                  "verdict incl. >= 12 sections; the theorems show Convert's output is already sorted)",
+                  "uint32 offsets modelled as nat: statements assume |content| < 2^32",
+                  "Add's binary-content path (a NUL byte replaces the content and drops the symbols) is not modelled; generators emit no NUL",
+                  "ctags names are valid UTF-8 because go-ctags json.Unmarshal-s them (hypothesis of C37_accepted_by_builder)"],
+    assumptions=["|content| < 2^32 (offsets are uint32 in Go)",
+                 "ctags entry names are valid UTF-8 (go-ctags decodes them with encoding/json)"],
 )
 
 def run(ctx):
